@@ -953,7 +953,7 @@ func main() {
 		return
 	}
 	vf.Main("C36", "exploration", func(r *vf.Run) {
-		r.Rule("PRNG configuration sequences: a start configuration (1-3 groups, 0-3 neighbours each from a pool of 4 IPv4 and 2 IPv6 peer addresses, every inheritable setting present or absent at group and neighbour level: local address, TTL, MD5 key, peer/local AS, hold time, import/export policy lists, route-server / route-reflector client, passive, cluster id, ipv4/ipv6 blocks with add-path receive/send and extended next hop; neighbour-only: disabled, advertise_ipv4_multiprotocol; 5 named policy statements with generated terms; a few percent degenerate forms: no protocols key, `protocols: {}`, `bgp: {}`, no groups, a routing instance) followed by 1 (pairs) or 2 (triples) successors obtained by 1-3 edits (change a setting at either level, add/remove/move a neighbour, add/remove a group, new content for a policy of the same name, change the global AS, switch to a degenerate form) or, 1 in 8, an unrelated configuration. Each YAML file goes through the real config.GetConfig and loadConfig. distinct_nontrivial = distinct cases whose reload path made the configurator dispose a peer or replace a filter chain (i.e. the last configuration met already configured peers)."+srvRule)
+		r.Rule("PRNG configuration sequences: a start configuration (1-3 groups, 0-3 neighbours each from a pool of 4 IPv4 and 2 IPv6 peer addresses, every inheritable setting present or absent at group and neighbour level: local address, TTL, MD5 key, peer/local AS, hold time, import/export policy lists, route-server / route-reflector client, passive, cluster id, ipv4/ipv6 blocks with add-path receive/send and extended next hop; neighbour-only: disabled, advertise_ipv4_multiprotocol; 5 named policy statements with generated terms; a few percent degenerate forms: no protocols key, `protocols: {}`, `bgp: {}`, no groups, a routing instance) followed by 1 (pairs) or 2 (triples) successors obtained by 1-3 edits (change a setting at either level, add/remove/move a neighbour, add/remove a group, new content for a policy of the same name, change the global AS, switch to a degenerate form) or, 1 in 8, an unrelated configuration. Each YAML file goes through the real config.GetConfig and loadConfig. distinct_nontrivial = distinct cases whose reload path made the configurator dispose a peer or replace a filter chain (i.e. the last configuration met already configured peers)." + srvRule)
 		r.Assume("the BGP server is a recording fake implementing the exported BGPServer interface (GetPeerConfig returns what AddPeer stored, Replace*FilterChain set the effective chains of the peer, as the real peer does); that the real server obeys is C07/C12's business", "router_id is constant (the daemon creates the server once from the start configuration)", "a peer address occurs at most once per configuration; every group has a local_address and a peer_as", "a panic inside config.GetConfig/loadConfig is recovered by the driver and reported (the daemon would have died)", "`disabled` (PeerConfig.AdminEnabled) is not compared: the BGP server never reads it, so it cannot affect a session")
 		r.Assume("effective policies are compared by the list of policy names and by a digest of the chain's outcomes (reject flag, LOCAL_PREF, MED, next hop, AS path) on 11 probe prefixes covering every pattern of the policy grammar")
 		r.Assume("server phase: the real BGP server is driven through its public API over in-memory connections (internal/speaker); synchronisation = speaker.Session.Sync after the neighbour's UPDATEs, the return of Replace*FilterChain, and for the update sender (own 5 ms ticker) the moment every prefix of the session's Adj-RIB-Outs stands announced on the wire; a session that cannot be established or observed within the step timeouts makes the case inconclusive (counted), never a violation")
